@@ -725,6 +725,18 @@ impl Database {
         }
     }
 
+    /// Drops the tombstone of a removed key (only if the key is still removed)
+    pub fn forget_deleted_key(&self, key: &String) {
+        let mut db = self.map.write().unwrap();
+        let is_deleted = match db.get(key) {
+            Some(value) => value.state == ValueStatus::Deleted,
+            None => false,
+        };
+        if is_deleted {
+            db.remove(key);
+        }
+    }
+
     pub fn get_value(&self, key: String) -> Option<Value> {
         #[cfg(nun_verif)]
         crate::verif::yield_point("get_value.map.read");
